@@ -172,6 +172,20 @@ def r1_detector_key_parity(ctx):
         r = {s.slice.value for s in ast.walk(fd.node) if isinstance(s, ast.Subscript) and dotted(s.value) == "charge_dct" and isinstance(s.slice, ast.Constant)}
         ok = w == r == {"array", "frame"}
         ctx.check(ok, cq + "#charge-keys", "charge array and cluster table both written and restored" if ok else f"charge entries written {sorted(w)} vs restored {sorted(r)}", where=fd, node=fd.node)
+    # charge is RESTORED (array and table assigned as saved), not ACCUMULATED through the add_* API
+    for cq in DETS:
+        ci = ctx.cls(cq)
+        fd = ci.methods["from_dict"]
+        adds = [c for c in calls_in(fd.node) if isinstance(c.func, ast.Attribute) and c.func.attr.startswith("add_charge") and "charge" in (dotted(c.func.value) or "")]
+        sa_ = [st for st, t in stores(fd.node, lambda t: (dotted(t) or "").endswith("charge._array"))]
+        sf_ = [st for st, t in stores(fd.node, lambda t: (dotted(t) or "").endswith("charge._frame"))]
+        ok = not adds and len(sa_) == 1 and len(sf_) == 1
+        if ok:
+            # both assignments under the same condition (the saved charge entry exists)
+            ta = [(norm(t), pol) for t, pol in enclosing_tests(sa_[0])]
+            tf = [(norm(t), pol) for t, pol in enclosing_tests(sf_[0])]
+            ok = ta == tf
+        ctx.check(ok, cq + "#charge-restored", "charge array and cluster table are assigned as saved" if ok else ("the saved clusters are ADDED through " + call_name(adds[0]) + ": the already restored array is converted and added again (charge doubled)" if adds else "charge array and cluster table are not both assigned under the same condition"), where=fd, node=(adds or sf_ or sa_ or [fd.node])[0])
     disp = ctx.func("pyxel.detectors.detector:Detector.from_dict")
     arms = {}
     for c in ast.walk(disp.node):
@@ -373,4 +387,11 @@ def r4_load_model_has_effect(ctx):
     ctx.check(ok, sd.qual, "save_detector saves the running detector" if ok else "save_detector does not save the running detector", where=sd, node=sd.node)
 
 
-RULES = [r1_detector_key_parity, r2_ctor_todict_parity, r3_backend_parity, r4_load_model_has_effect]
+def r5_result_sees_loaded_state(ctx):
+    """"The final result sees the loaded state": run_pipeline reads /scene and /data from the detector after the last step, not through an alias taken earlier (shared with C03.R5)."""
+    from props.C03 import r5_pass_through
+
+    r5_pass_through(ctx)
+
+
+RULES = [r5_result_sees_loaded_state, r1_detector_key_parity, r2_ctor_todict_parity, r3_backend_parity, r4_load_model_has_effect]
